@@ -63,6 +63,20 @@ Theorem C05_owner_create_partial : forall c h d dv n k mode i h', i <> d ->
   exists v, get h' i = Some v /\ i_uid v = euid c /\ i_gid v = new_gid c dv /\ i_kind v = k.
 Proof. exact create_node_owner. Qed.
 
+(* setattr applies exactly the requested subset of the time stamps (utimens abstracted as set / now / omit per
+   field): the step runs iff ATIME or MTIME is valid (part of C05_op_refines_syscall via direct_host), and then *)
+Theorem C05_setattr_times : forall h i a m h', get h i <> None -> sys_utimens h i a m = (Ok tt, h') ->
+  utimes_of h' i = (tv_apply a (fst (utimes_of h i)), tv_apply m (snd (utimes_of h i))) /\
+  (forall j, j <> i -> utimes_of h' j = utimes_of h j) /\ (forall j, get h' j = get h j) /\ h_next h' = h_next h.
+Proof. exact utimens_exact. Qed.
+Theorem C05_setattr_time_spec : forall valid nb sb sec nsec,
+  time_spec valid nb sb sec nsec =
+  (if has valid nb then TNow else if has valid sb then TSet sec nsec else TKeep) /\
+  (has valid nb = false -> has valid sb = false -> forall old, tv_apply (time_spec valid nb sb sec nsec) old = old) /\
+  (has valid nb = false -> has valid sb = true -> forall old, tv_apply (time_spec valid nb sb sec nsec) old = TSet sec nsec) /\
+  (has valid nb = true -> forall old, tv_apply (time_spec valid nb sb sec nsec) old = TNow).
+Proof. exact time_spec_cases. Qed.
+
 (* flags *)
 Theorem C05_flags_writeback_off : forall cf f, c_writeback cf = false -> get_writeback_open_flags cf f = f.
 Proof. exact writeback_flags_off. Qed.
@@ -100,6 +114,8 @@ Print Assumptions C05_create_flag_use.
 Print Assumptions C05_owner.
 Print Assumptions C05_owner_calls.
 Print Assumptions C05_owner_create_partial.
+Print Assumptions C05_setattr_times.
+Print Assumptions C05_setattr_time_spec.
 Print Assumptions C05_flags_writeback_off.
 Print Assumptions C05_flags_writeback_no_append.
 Print Assumptions C05_flags_writeback_access.
